@@ -158,7 +158,7 @@ def oracle_es_pair(case, rec):
     # common shift in time
     k = case["shift"]
     if ts1 is None:
-        pad = [0] * abs(k)
+        pad = [0] * (abs(k) % 51)     # index time: a few leading samples
         tail = [0] * (abs(k) % 3)
         ok, q2 = rec.call("event_synchronization_raises_shifted", lib_es,
                           pad + x + tail, pad + y + tail, None, None, taumax,
@@ -249,7 +249,7 @@ def oracle_eca_pair(case, rec):
                   atol=1e-12)
     k = case["shift"]
     if ts1 is None:
-        pad = [0] * abs(k)
+        pad = [0] * (abs(k) % 51)     # index time: a few leading samples
         tail = [0] * (abs(k) % 3)
         ok, r2 = rec.call("event_coincidence_analysis_raises_shifted",
                           lib_eca, pad + x + tail, pad + y + tail, None, None,
@@ -594,6 +594,13 @@ def oracle_threshold(case, rec):
 
 # --------------------------------------------------------------- generators
 
+# time origins: small, and epochs as they occur in practice (Julian days,
+# Unix seconds, beyond 2^24 where single precision stops resolving steps)
+SHIFTS = st.one_of(st.integers(-50, 50), st.integers(-50, 50),
+                   st.sampled_from([2440000, 1700000000, -10000000,
+                                    2 ** 24 + 1, 10 ** 12]))
+
+
 @st.composite
 def bit_series(draw, T):
     p = draw(st.sampled_from([1, 2, 2, 3, 3, 4, 5]))
@@ -652,7 +659,7 @@ def es_pair_cases(draw):
                             quarter(0, 60)))
     lag = draw(st.one_of(st.just(0.0), st.just(0.0), quarter(-12, 12)))
     return {"x": x, "y": y, "ts": ts, "ts2": ts2, "taumax": taumax,
-            "lag": lag, "shift": draw(st.integers(-50, 50)),
+            "lag": lag, "shift": draw(SHIFTS),
             "scale": draw(st.integers(-2, 3))}
 
 
@@ -668,7 +675,7 @@ def eca_pair_cases(draw):
                             quarter(0, 60)))
     lag = draw(st.one_of(st.just(0.0), quarter(0, 12)))
     return {"x": x, "y": y, "ts": ts, "ts2": ts2, "taumax": taumax,
-            "lag": lag, "shift": draw(st.integers(-50, 50)),
+            "lag": lag, "shift": draw(SHIFTS),
             "scale": draw(st.integers(-2, 3))}
 
 
@@ -698,7 +705,7 @@ def matrix_cases(draw):
     return {"E": E, "ts": ts, "taumax": taumax, "lag": lag, "method": method,
             "window": draw(st.sampled_from(WINDOWS)),
             "perm": list(draw(st.permutations(list(range(N))))),
-            "shift": draw(st.integers(-50, 50))}
+            "shift": draw(SHIFTS)}
 
 
 @st.composite
